@@ -424,6 +424,17 @@ static int settled(void)
 	return 1;
 }
 
+/* A thread that pushed a synchronous waiter onto the workloop and made the word dirty must not touch the waiter's
+ * context any more: the lock owner may hand the lock over and the waiter return (its context lives on its stack)
+ * at once.  Holding the pusher right after that access gives a late write time to land on the reused stack
+ * (finding F6: dsc_wlh_was_first was written after the publication). */
+static void chain_post_steer(struct dispatch_verif_site_s *s, const volatile void *a, int obj)
+{
+	(void)a; (void)obj;
+	if (!strcmp(s->dvs_func, "_dispatch_workloop_push_waiter") && strstr(s->dvs_expr, "dq_state") && s->dvs_op[0] == 'c')
+		usleep(2000 + (unsigned)(vrt_rand() % 4000));
+}
+
 int main(int argc, char **argv)
 {
 	const char *out = argc > 1 ? argv[1] : "/dev/null";
@@ -436,6 +447,7 @@ int main(int argc, char **argv)
 	if (argc > 8) g_pp = atoi(argv[8]);
 	if (argc > 9) NT = atoi(argv[9]);
 	vrt_init(out, g_seed, perturb);
+	if (perturb > 0) vrt_set_post_steer(chain_post_steer);
 	vrt_set_projector(proj);
 	vrt_add_class("dte_value", 100);     /* thread events: any address */
 	vrt_set_probe_filter(0);             /* futex probes on them are recorded (and perturbed) too */
